@@ -130,14 +130,14 @@ theorem RelE_of_map_eq {T : Type} (e : T → T) {ra rb : Except ε T} (h : ra.ma
 def GR (c : Cfg α) (a b : St α) : Prop := a.er = b.er ∧ MemI c a
 
 theorem MemI.of_er (c : Cfg α) {a b : St α} (h : a.er = b.er) (hi : MemI c a) : MemI c b := by
-  obtain ⟨lg, cbs, rfl⟩ := St.exists_ghost h
+  obtain ⟨lg, cbs, ol, rfl⟩ := St.exists_ghost h
   exact ⟨hi.len, hi.pos, hi.pairs, hi.mats⟩
 
 theorem afterEval_gr (u : User α ε) (hid : IdUpdate u) (c : Cfg α) {a b : St α} (f0Old : α) (h : GR c a b) :
     RelE (fun p q => GR c p.1 q.1 ∧ p.2 = q.2) (afterEval u (c.up true) a f0Old)
       (afterEval u (c.up false) b f0Old) := by
   obtain ⟨he, hi⟩ := h
-  obtain ⟨lg, cbs, rfl⟩ := St.exists_ghost he
+  obtain ⟨lg, cbs, ol, rfl⟩ := St.exists_ghost he
   unfold IdUpdate at hid
   unfold afterEval
   simp only [if_true, Bool.false_eq_true, if_false, St.logCall, hid, bind, Except.bind, pure, Except.pure, RelE]
@@ -153,10 +153,10 @@ theorem afterEval_gr (u : User α ε) (hid : IdUpdate u) (c : Cfg α) {a b : St 
 theorem doCallback_gr (u : User α ε) (c : Cfg α) {a b : St α} (h : GR c a b) :
     RelE (GR c) (doCallback u (c.up true) a) (doCallback u (c.up false) b) := by
   obtain ⟨he, hi⟩ := h
-  obtain ⟨lg, cbs, rfl⟩ := St.exists_ghost he
+  obtain ⟨lg, cbs, ol, rfl⟩ := St.exists_ghost he
   unfold doCallback
   dsimp only
-  have hres : ({ a with cbStates := cbs, sf := { a.sf with log := lg } } : St α).result = a.result := rfl
+  have hres : ({ a with cbStates := cbs, sf := { a.sf with log := lg }, olog := ol } : St α).result = a.result := rfl
   rw [hres]
   split
   · simp only [bind, Except.bind]
@@ -175,7 +175,7 @@ theorem iterStep_gr (u : User α ε) (hid : IdUpdate u) (c : Cfg α)
     RelE (fun p q => GR c p.1 q.1 ∧ p.2 = q.2) (iterStep u (c.up true) a d stp f0Old)
       (iterStep u (c.up false) b d stp f0Old) := by
   obtain ⟨he, hi⟩ := h
-  obtain ⟨lg, cbs, rfl⟩ := St.exists_ghost he
+  obtain ⟨lg, cbs, ol, rfl⟩ := St.exists_ghost he
   unfold iterStep
   dsimp only
   refine RelE.bind (RelE_of_map_eq (fun p : SF α × α × Vec α => (p.1.er, p.2))
@@ -197,11 +197,11 @@ theorem iterStep_gr (u : User α ε) (hid : IdUpdate u) (c : Cfg α)
       rw [memStep_up c r1 hir]
       exact ⟨memStep_congr c c.hasCallback c.hasCallback r1 r1' hr |> fun h' => by
               simpa [Cfg.cb, Cfg.up] using (show (memStep (c.up false) r1).er = (memStep (c.up false) r1').er from by
-                obtain ⟨lg', cbs', rfl⟩ := St.exists_ghost hr; rfl),
+                obtain ⟨lg', cbs', ol', rfl⟩ := St.exists_ghost hr; rfl),
              memStep_memI c false hsym hmc r1 hir⟩
     refine RelE.bind (doCallback_gr u c hm) ?_
     rintro w w' ⟨hw, hiw⟩
-    obtain ⟨lg', cbs', rfl⟩ := St.exists_ghost hw
+    obtain ⟨lg', cbs', ol', rfl⟩ := St.exists_ghost hw
     simp only [pure, Except.pure, RelE]
     exact ⟨⟨rfl, hiw.len, hiw.pos, hiw.pairs, hiw.mats⟩, by rflt⟩
 
@@ -210,20 +210,20 @@ theorem iterBody_gr (u : User α ε) (o : Oracles α δ) (hid : IdUpdate u) (c :
     {a b : St α} (h : GR c a b) :
     RelE (fun p q => GR c p.1 q.1 ∧ p.2 = q.2) (iterBody u o (c.up true) a) (iterBody u o (c.up false) b) := by
   obtain ⟨he, hi⟩ := h
-  obtain ⟨lg, cbs, rfl⟩ := St.exists_ghost he
+  obtain ⟨lg, cbs, ol, rfl⟩ := St.exists_ghost he
   unfold iterBody
   dsimp only
-  refine RelE.bind (RelE_of_map_eq (fun p : SF α × Option α × List (OReq α) => (p.1.er, p.2))
-    (lineSearch_congr u o (c.up false) _ _ _ _ _ a.sf { a.sf with log := lg } _ _ (by simp [SF.er]))) ?_
+  refine RelE.bind (RelE_of_map_eq (fun p : SF α × Option α × List (OReq α) => (p.1.er, p.2.1, ([] : List (OReq α))))
+    (lineSearch_congr u o (c.up false) _ _ _ _ _ a.sf { a.sf with log := lg } _ _ _ (by simp [SF.er]))) ?_
   rintro ⟨p1, p2, p3⟩ ⟨q1, q2, q3⟩ hpq
   simp only [Prod.mk.injEq] at hpq
-  obtain ⟨h1, h2, h3⟩ := hpq
-  subst h2 h3
+  obtain ⟨h1, h2, -⟩ := hpq
+  subst h2
   dsimp only
   cases p2 with
   | none =>
     simp only [pure, Except.pure, RelE]
-    have hg : GR c { a with sf := p1, olog := p3 } { a with cbStates := cbs, sf := q1, olog := p3 } :=
+    have hg : GR c { a with sf := p1, olog := p3 } { a with cbStates := cbs, sf := q1, olog := q3 } :=
       ⟨by simp [St.er, h1], hi.len, hi.pos, hi.pairs, hi.mats⟩
     refine ⟨⟨?_, iterFail_memI c _ hg.2⟩, ?_⟩
     · have := iterFail_congr _ _ hg.1
@@ -248,7 +248,7 @@ theorem mainLoop_gr (u : User α ε) (o : Oracles α δ) (hid : IdUpdate u) (c :
     intro a b h
     simp only [mainLoop]
     have hgd : guard (c.up true) a = guard (c.up false) b := by
-      obtain ⟨lg, cbs, rfl⟩ := St.exists_ghost h.1; rfl
+      obtain ⟨lg, cbs, ol, rfl⟩ := St.exists_ghost h.1; rfl
     rw [hgd]
     split
     · refine RelE.bind (iterBody_gr u o hid c hsym hmc h) ?_
@@ -310,7 +310,7 @@ theorem prepare_gr (u : User α ε) (hid : IdUpdate u) (c : Cfg α) (i : Init α
 
 theorem classify_up (c : Cfg α) (s t : St α) (h : s.er = t.er) :
     (classify (c.up true) s).er = (classify (c.up false) t).er := by
-  obtain ⟨lg, cbs, rfl⟩ := St.exists_ghost h
+  obtain ⟨lg, cbs, ol, rfl⟩ := St.exists_ghost h
   unfold classify
   dsimp only
   split
@@ -338,7 +338,7 @@ theorem minimize_identity (u : User α ε) (o : Oracles α δ) (hid : IdUpdate u
       rw [this]; simp [RelE, pure, Except.pure]
     · refine RelE.bind (prepare_gr u hid c i hX hG) ?_
       rintro s0 t0 h0
-      have hn : s0.nit = t0.nit := by obtain ⟨lg, cbs, rfl⟩ := St.exists_ghost h0.1; rfl
+      have hn : s0.nit = t0.nit := by obtain ⟨lg, cbs, ol, rfl⟩ := St.exists_ghost h0.1; rfl
       have hm : (c.up true).maxiter - s0.nit = (c.up false).maxiter - t0.nit := by rw [hn]
       rw [hm]
       refine RelE.bind (mainLoop_gr u o hid c hsym hmc _ h0) ?_
